@@ -78,6 +78,7 @@ type modelProbe struct {
 }
 
 type Unit struct {
+	intOf    [][2]Term // (integer value, fixed-width operand) of the conversions the program performs
 	frameOn      bool
 	frameOff     int // >0: writes are not checked (copy-in of interior pointers etc.)
 	frameKey     string
@@ -191,8 +192,11 @@ func (u *Unit) oblige(fn, kind, detail string, guard, prop Term, src, tag string
 		o.Result = "trivial"
 		u.obls = append(u.obls, o)
 	}
-	// later code may rely on it
-	u.assume(goal)
+	// later code may rely on it (a frame obligation is a side condition that nothing later depends on; not
+	// assuming it keeps a violated frame from making the rest of the function look unreachable)
+	if kind != "frame" {
+		u.assume(goal)
+	}
 	return o
 }
 
